@@ -756,9 +756,16 @@ pub fn run_line(line: &str, out: &mut String) {
             run_txn(ob.as_mut().unwrap(), &mut w, &mut it);
         } else if name == "dropvec" {
             w.fin = Some(w.shadow.clone());
-            ob = None;
+            // two ways for the vector to go away: dropped, or consumed by into_inner()
+            let mut plain_bad = false;
+            if w.out.len() % 2 == 0 {
+                ob = None;
+            } else {
+                let inner = ob.take().unwrap().into_inner();
+                plain_bad = !inner.iter().eq(w.shadow.iter());
+            }
             let sfx = w.woken_suffix();
-            w.out.push(format!(".{sfx}"));
+            w.out.push(format!(".{sfx}{}", if plain_bad { " ok:plain=0" } else { "" }));
         } else if !w.side_op(name, arg) {
             panic!("bad op {op}");
         }
